@@ -1632,7 +1632,10 @@ std::string Generator::GeneratorImpl::generateCode(const AnalyserEquationAstPtr 
         }
     } break;
     case AnalyserEquationAst::Type::PIECE:
-        code = generatePiecewiseIfCode(generateCode(ast->rightChild()), generateCode(ast->leftChild()));
+        code = generatePiecewiseIfCode(generateCode(ast->rightChild()),
+                                       isPiecewiseStatement(ast->leftChild()) ?
+                                           "(" + generateCode(ast->leftChild()) + ")" :
+                                           generateCode(ast->leftChild()));
 
         break;
     case AnalyserEquationAst::Type::OTHERWISE:
